@@ -140,3 +140,9 @@ def d21_root_self_loop(pid, case, f):
 def d23_timed_mutators_not_frozen(pid, case, f):
     c, d = _base(f["clause"]), f["detail"]
     return c == "C19.frozen_mutable" and d.get("call") in ("add_interaction", "add_interactions_from", "add_path", "add_star", "add_cycle")
+
+
+@signature
+def d27_attribute_named_like_id_key(pid, case, f):
+    c, d = _base(f["clause"]), f["detail"]
+    return c == "C11.attribute_named_like_id_key" and d.get("got") == "attribute-lost"
